@@ -22,9 +22,9 @@ LIMIT_MESSAGES = (
 EVICTABLE = ("percolated_network", "percolated_petri_net", "percolated_nfvs", "attractor_candidates")
 
 # work budget constants (DESIGN.md §4 C13); constants of the check
-C0 = 3_000_000
+C0 = 1_500_000
 C1 = 500
-C2 = 100
+C2 = 50
 
 
 def work_budget(n, D, cfg):
